@@ -302,6 +302,10 @@ var c8muts = []c8mut{
 		if toks[i].tok == token.RPAREN || toks[i].tok == token.RBRACK || toks[i].tok == token.RBRACE {
 			return nil
 		}
+		// ... nor before a line that continues a comprehension (if/for/let clause lines)
+		if toks[i].tok == token.IF || toks[i].tok == token.FOR || toks[i].tok == token.LET {
+			return nil
+		}
 		// the line must start a declaration: the previous line ended one (inserted comma) or opened a struct
 		if i > 0 && !(toks[i-1].tok == token.COMMA && toks[i-1].lit == "\n") && toks[i-1].tok != token.LBRACE {
 			return nil
@@ -322,14 +326,18 @@ var c8muts = []c8mut{
 		}
 		// ... and not a clause of a comprehension (for/if/let lines are joined by the same inserted comma; a comment
 		// there is moved behind the comprehension: recorded position class)
-		if i+2 < len(toks) {
-			switch toks[i+2].tok {
+		for j := i + 2; j < len(toks); j++ {
+			if toks[j].tok == token.COMMENT || toks[j].tok == token.COMMA {
+				continue // an earlier mutation may have put a comment line in between
+			}
+			switch toks[j].tok {
 			case token.IF, token.FOR, token.LET, token.LBRACE:
 				return nil
 			}
-			if toks[i+2].lit == "try" || toks[i+2].lit == "otherwise" || toks[i+2].lit == "fallback" {
+			if toks[j].lit == "try" || toks[j].lit == "otherwise" || toks[j].lit == "fallback" {
 				return nil
 			}
+			break
 		}
 		return c8insert(src, le, " // t")
 	}},
